@@ -26,7 +26,7 @@ def gen_c10(rnd, sid):
             handlers.append(dict(cls="U%d" % c, hid=len(handlers), data=None, scripts=[[act() for _ in range(rnd.choice([0, 0, 1, 2, 3]))] for _ in range(rnd.randint(1, 8))]))
     init = [["enq", "U%d" % rnd.randrange(ncls), rnd.choice([0, 0, 1]), None, sid.next()] for _ in range(rnd.randint(2, 10))]
     return dict(op="machine", mode="c10", width=80, screens=[], handlers=handlers, init=init, stdin=[], quit_cb=None, quit_screen=None,
-                exc_handler=True, run_empty=True, deliver_at=[])
+                exc_handler=True, run_empty=True, deliver_at=[], same_name=rnd.random() < 0.4)
 
 
 def generate(rnd, tier):
@@ -37,7 +37,10 @@ def generate(rnd, tier):
 
 
 def corpus():
-    return []
+    # witness of the fixed finding F8: two distinct classes with the same __name__
+    yield with_cc(dict(op="machine", mode="c10", width=80, screens=[], same_name=True, stdin=[], run_empty=True, deliver_at=[], exc_handler=True,
+                       handlers=[dict(cls="U0", hid=0, data=None, scripts=[[["proc", "U1"]]]), dict(cls="U2", hid=1, data=None, scripts=[]), dict(cls="U1", hid=2, data=None, scripts=[])],
+                       init=[["enq", "U0", 0, None, 1], ["enq", "U2", 0, None, 2], ["enq", "U1", 0, None, 3]]))
 
 
 def monitor(case, obs):
